@@ -249,6 +249,8 @@ pub fn expr_into_bytes(ir: &tir::Expression) -> Result<primitives::Bytes, Error>
     match ir {
         tir::Expression::Bytes(x) => Ok(primitives::Bytes::from(x.clone())),
         tir::Expression::String(s) => Ok(primitives::Bytes::from(s.as_bytes().to_vec())),
+        // what a `policy P = 0x..;` definition lowers to (the policy of an asset written `AnyAsset(P, ..)`)
+        tir::Expression::Hash(x) => Ok(primitives::Bytes::from(x.clone())),
         _ => Err(Error::CoerceError(format!("{ir:?}"), "Bytes".to_string())),
     }
 }
